@@ -164,7 +164,12 @@ func (s *MemStore) TokenFromContext(ctx context.Context) (string, bool) {
 }
 
 // Live reports whether a token currently names a session.
-func (s *MemStore) Live(tok string) bool { s.mu.Lock(); defer s.mu.Unlock(); _, ok := s.sessions[tok]; return ok }
+func (s *MemStore) Live(tok string) bool {
+	s.mu.Lock()
+	defer s.mu.Unlock()
+	_, ok := s.sessions[tok]
+	return ok
+}
 
 // SessionFields returns the names of the fields set in a session (for state keys).
 func (s *MemStore) SessionFields(tok string) map[string][]byte {
@@ -275,7 +280,9 @@ func (s *MemStore) TO1ProofNonce(ctx context.Context) (n protocol.Nonce, err err
 
 // ---- TO2 ----
 
-func (s *MemStore) SetGUID(ctx context.Context, g protocol.GUID) error { return s.set(ctx, "SetGUID", "guid", g) }
+func (s *MemStore) SetGUID(ctx context.Context, g protocol.GUID) error {
+	return s.set(ctx, "SetGUID", "guid", g)
+}
 func (s *MemStore) GUID(ctx context.Context) (g protocol.GUID, err error) {
 	err = s.get(ctx, "GUID", "guid", &g)
 	return
